@@ -1273,6 +1273,8 @@ class Engine(object):
             raise Unsupported('slice of formatted number')
         if obj is None:
             raise PyExc('TypeError', "'NoneType' object is not subscriptable")
+        if isinstance(obj, Obj) and '__getslice__' in obj.fields:      # a modelled object that answers slices (record tape lines)
+            return self.call(obj.fields['__getslice__'], [lo, hi])
         raise Unsupported('slice of %s' % type(obj).__name__)
 
     def iterate(self, v):
